@@ -17,8 +17,10 @@ import (
 	"io"
 	"os"
 	"path/filepath"
+	"runtime/debug"
 	"sort"
 	"strings"
+	"sync"
 	"testing"
 	"testing/fstest"
 
@@ -83,8 +85,55 @@ func stageErr(err error) (int, error) {
 	return 1, nil
 }
 
+// concurrently wraps a decoder entry: for one input in three the decoder also runs in two more goroutines at the
+// same time. Decoding is a function of the bytes; callers decode from several goroutines (a service parsing boot
+// entries, a tool walking variables in parallel), so state shared between calls must not bring the process down.
+func concurrently(f sandbox.Entry) sandbox.Entry {
+	return func(in []byte) (int, error) {
+		if len(in)%3 != 0 || len(in) > 1<<16 {
+			return f(in) // (the allocation bound is per call: the big size-scaling inputs run alone)
+		}
+		var wg sync.WaitGroup
+		var mu sync.Mutex
+		var crashed any
+		start := make(chan struct{})
+		// short inputs decode in microseconds: the calls only overlap when they are repeated behind a common start
+		reps := 1
+		if len(in) <= 512 {
+			reps = 6
+		}
+		for g := 0; g < 2; g++ {
+			wg.Add(1)
+			go func() {
+				defer wg.Done()
+				defer func() {
+					if r := recover(); r != nil {
+						mu.Lock()
+						crashed = fmt.Sprintf("%v (in a concurrent call)\n%s", r, debug.Stack())
+						mu.Unlock()
+					}
+				}()
+				<-start
+				for i := 0; i < reps; i++ {
+					f(append([]byte{}, in...))
+				}
+			}()
+		}
+		close(start)
+		for i := 1; i < reps; i++ {
+			f(in)
+		}
+		st, err := f(in)
+		wg.Wait()
+		if crashed != nil {
+			panic(crashed)
+		}
+		return st, err
+	}
+}
+
 func init() {
-	sandbox.Register(map[string]sandbox.Entry{
+	entries := map[string]sandbox.Entry{
 		"sigdb": func(in []byte) (int, error) {
 			db, err := signature.ReadSignatureDatabase(bytes.NewReader(in))
 			if err == nil {
@@ -166,7 +215,10 @@ func init() {
 		"bootorder": func(in []byte) (int, error) {
 			e := store("BootOrder", global, in)
 			names := e.GetBootOrder()
-			for _, n := range names {
+			for i, n := range names {
+				if i >= 256 {
+					break // the look-ups are the harness's own doing (one file-system access each), not the decoder's
+				}
 				e.GetBootEntry(n)
 			}
 			if names == nil {
@@ -289,7 +341,14 @@ func init() {
 			}
 			return stageErr(firstErr)
 		},
-	})
+	}
+	// entries that touch process-wide settings of the library (the package-level file system) stay sequential
+	for name, f := range entries {
+		if name != "varfile" && name != "reader_fault" && name != "testfs_write" {
+			entries[name] = concurrently(f)
+		}
+	}
+	sandbox.Register(entries)
 }
 
 type Case struct {
@@ -413,6 +472,20 @@ var hostile32 = []uint32{0, 1, 2, 7, 8, 15, 16, 17, 23, 24, 27, 28, 29, 47, 48, 
 // mutate derives a malformed input from a valid encoding.
 func mutate(t *rapid.T, valid []byte) ([]byte, string) {
 	b := append([]byte{}, valid...)
+	if len(b) > 0 && gen.Chance(t, "bulk", 1, 40) {
+		// size scaling: the valid encoding repeated up to some hundred kilobytes or a megabyte (many lists, many
+		// nodes, many entries, a very long string): linear decoders take milliseconds
+		target := rapid.SampledFrom([]int{1 << 16, 1 << 19, 3 << 19}).Draw(t, "bulksize")
+		unit := b
+		if rapid.Bool().Draw(t, "strip_terminator") && len(unit) > 4 {
+			unit = unit[:len(unit)-rapid.SampledFrom([]int{2, 4}).Draw(t, "termlen")] // e.g. without the NUL / the end node, so that the repetition continues the same object
+		}
+		out := make([]byte, 0, target+len(b))
+		for len(out) < target {
+			out = append(out, unit...)
+		}
+		return append(out, b...), "bulk"
+	}
 	switch k := rapid.IntRange(0, 13).Draw(t, "mkind"); {
 	case k == 0:
 		return b, "valid"
